@@ -838,6 +838,47 @@ def run(ctx):
             r.ok("root|cwd", "State.cwd = current_dir() (std::env::current_dir, falling back to $PWD)", fn=st[0], nontrivial=False)
         else:
             r.bad("root|cwd", "State.cwd is no longer taken from the process working directory", fn=(st[0] if st else None))
+    with ctx.rule("C05.PARENTS", "when parent directories are consulted and when a directory counts as a git repository (truth tables)",
+                  floor=3, exhaustive=True, kind="TRUTH") as r:
+        O = "self.0.opts."
+        ap = facts.fn("ignore::dir::Ignore::add_parents")
+        acp = facts.fn("ignore::dir::Ignore::add_child_path")
+
+        def cond_with(f, must):
+            for x in H.find(f.hir, lambda x: x.get("k") == "if"):
+                c = H.canon(x["c"])
+                if all(m in c for m in must):
+                    return x
+            return None
+        # (a) parents are skipped only when no source could need them
+        x = cond_with(ap, [O + "parents", O + "git_global"])
+        atoms = [O + "parents", O + "git_ignore", O + "git_exclude", O + "git_global"]
+        if x is None:
+            r.bad("add_parents|skip", "anchor-missing: the 'nothing needs parent directories' test of add_parents", fn=ap)
+        else:
+            ok, detail = H.equivalent(x["c"], atoms, lambda v: not any(v[a] for a in atoms))
+            returns_self = any(H.find(x["t"], lambda y: y.get("k") in ("ret", "return")))
+            if ok:
+                r.ok("add_parents|skip", "skip ⇔ ¬parents ∧ ¬git_ignore ∧ ¬git_exclude ∧ ¬git_global (16 rows)", fn=ap)
+            else:
+                r.bad("add_parents|skip", "add_parents skips the parent directories under another condition: %s" % detail, fn=ap,
+                      construct="add_parents")
+        # (b) has_git of a parent / child matcher
+        for f, key, atoms2, spec in (
+                (ap, "add_parents|has_git", [O + "require_git", O + "git_ignore"], lambda v: v[O + "require_git"] and v[O + "git_ignore"]),
+                (acp, "add_child_path|git_type", [O + "require_git", O + "git_ignore", O + "git_exclude"],
+                 lambda v: v[O + "require_git"] and (v[O + "git_ignore"] or v[O + "git_exclude"]))):
+            x = cond_with(f, [O + "require_git"])
+            if x is None:
+                r.bad(key, "anchor-missing: the require_git test of %s" % f.name, fn=f)
+                continue
+            ok, detail = H.equivalent(x["c"], atoms2, spec)
+            els = H.canon(x["e"]) if "e" in x else ""
+            if ok and ("false" in els or "None" in els):
+                r.ok(key, "looks for .git ⇔ %s; otherwise %s" % (" ∧ ".join(a.split(".")[-1] for a in atoms2[:1]) + " ∧ (git source on)", els[:12]), fn=f)
+            else:
+                r.bad(key, "%s decides whether the directory is a git repository under another condition (%s; else-value `%s`)"
+                      % (f.name, detail, els[:30]), fn=f, construct="has_git")
     with ctx.rule("C05.NAME", "an entry has no file name only when its path is empty or its final component was examined", floor=3,
                   kind="GUARD") as r:
         from . import c12
